@@ -497,6 +497,33 @@ func (w *c07Walker) leafListFaults(owner, fv reflect.Value, f reflect.StructFiel
 		})
 		w.add("ll-dup", fsite, "replace-last", tn+","+cfg+w.unionStyle(et), ap, un)
 	}
+	// near-duplicates (a VALID tree unless the type restricts length): two distinct values that agree in
+	// their first 200 characters / 64 bytes and differ only at the very end. Any comparison of
+	// elements by a truncated rendering (util.ValueStr cuts at 150 characters) or by a prefix hash
+	// takes them for duplicates.
+	if (max == 0 || max >= 2) && min <= 2 {
+		for _, nd := range [][2]core.Value{
+			{core.Value("str:" + strings.Repeat("a", 200) + "x"), core.Value("str:" + strings.Repeat("a", 200) + "y")},
+			{core.Value("bin:" + strings.Repeat("ab", 64) + "01"), core.Value("bin:" + strings.Repeat("ab", 64) + "02")},
+		} {
+			nd := nd
+			if _, err := c07ToGo(p, nd[0], et, owner); err != nil {
+				continue
+			}
+			ap, un := c07Setter(fv, func() (reflect.Value, error) {
+				ns := reflect.MakeSlice(f.Type, 2, 2)
+				for i := 0; i < 2; i++ {
+					gv, err := c07ToGo(p, nd[i], et, owner)
+					if err != nil {
+						return gv, err
+					}
+					ns.Index(i).Set(gv)
+				}
+				return ns, nil
+			})
+			w.add("ll-near-dup", fsite, string(nd[0][:3]), tn+","+cfg+w.unionStyle(et), ap, un)
+		}
+	}
 	// one above max-elements: max+1 distinct in-space values
 	if max > 0 && max < 16 && uint64(n) <= max {
 		dom := p.LeafDomain(et, ce)
